@@ -22,6 +22,7 @@ from gen import core  # noqa: E402
 CHECKS = {
     "C06": "gen.c06",
     "C07": "gen.c07",
+    "C11": "gen.c11",
     "C15": "gen.c15",
 }
 
